@@ -9,6 +9,9 @@ import Gts.Lemmas.Window
 import Gts.Lemmas.Guest
 import Gts.Lemmas.Record
 import Gts.Props.C02
+import Gts.Lemmas.MarksInv
+import Gts.Lemmas.MarkGuardOps
+import Gts.Lemmas.MarkGuardEmbed
 namespace Gts.C10
 open Gts Loc
 
@@ -235,6 +238,77 @@ example : wf (joined [ranged 2 5 true false, ranged 7 9 false true]) = true ∧
     expandAbs (shift (joined [ranged 2 5 true false, ranged 7 9 false true]) 3 4) 3 (-4) = false := by
   decide
 
+/-! ### the same partial markers as originally
+
+`outerMarks` (`Gts/Spec/Marks.lean`) is the Lean restatement of the Go oracle
+`harness/spec.go outerMarks`. -/
+
+/-- FULL STATEMENT (false on the model, and on the code): "insert;delete gives every well-formed
+location its original outer markers back".  Witness `join(4,<4..6)` (a literal that `Join` would
+reduce): the insertion already rebuilds the join, `Push` replaces the point by the range that
+starts at it, and `<4..6` comes back with a 5' marker where the unmarked point was. -/
+theorem shift_then_delete_marks_full_refuted :
+    ¬ (∀ (l : Loc) (i n : Int), wf l = true → 0 < n →
+        outerMarks (expand (shift l i n) i (-n)) = outerMarks l) := by
+  intro h
+  have := h (joined [point 3, ranged 3 6 true false]) 0 1 (by decide) (by decide)
+  revert this
+  decide
+
+/-- **insert;delete restores the partial markers**: for every well-formed location of any kind,
+arity, nesting and strand, every index `i` and guest length `n > 0`, deleting the `n` residues
+just inserted at `i` yields a location with the same 5' and 3' outer markers as originally —
+also when a range was split around the guest and re-merged, and when an ambiguous span comes back
+as `order(a.b, c.d)`.  Guards: no marker-moving rule of `Push` fires in either step. -/
+theorem shift_then_delete_marks_partial (l : Loc) (i n : Int) (hw : wf l = true) (hn : 0 < n)
+    (g1 : shiftMarkAbs l i n = false) (g2 : expandMarkAbs (shift l i n) i (-n) = false) :
+    outerMarks (expand (shift l i n) i (-n)) = outerMarks l :=
+  outerMarks_of_marks (shift_then_delete_marks_aux l i n hw hn g1 g2)
+
+/-- … in particular under the hypotheses of `shift_then_delete_den_partial` (K2 guards of both
+steps) plus duplicate-freeness — the conditions under which the Go oracle evaluates the clause -/
+theorem shift_then_delete_marks_nodup_partial (l : Loc) (i n : Int) (hw : wf l = true) (hn : 0 < n)
+    (h1 : shiftAbs l i n = false) (h2 : expandAbs (shift l i n) i (-n) = false)
+    (hnd : (den l).Nodup) :
+    outerMarks (expand (shift l i n) i (-n)) = outerMarks l := by
+  have a := shift_ins l i n hw (by omega)
+  have hnd2 : (den (shift l i n)).Nodup :=
+    Refines.nodup (a.1 h1) (nodup_mapPos_insMap i n (by omega) _ hnd)
+  exact shift_then_delete_marks_partial l i n hw hn
+    (shiftMarkAbs_of_nodup l i n hw (by omega) h1 hnd)
+    (expandDelMarkAbs_of_nodup (shift l i n) i n a.2 hn h2 hnd2)
+
+/-- **embed;delete restores the partial markers** -/
+theorem embed_then_delete_marks_partial (l : Loc) (i n : Int) (hw : wf l = true) (hn : 0 < n)
+    (g1 : expandMarkAbs l i n = false) (g2 : expandMarkAbs (expand l i n) i (-n) = false) :
+    outerMarks (expand (expand l i n) i (-n)) = outerMarks l :=
+  outerMarks_of_marks (embed_then_delete_marks_aux l i n hw hn g1 g2)
+
+/-- … under the hypotheses of `embed_then_delete_den_partial` plus duplicate-freeness -/
+theorem embed_then_delete_marks_nodup_partial (l : Loc) (i n : Int) (hw : wf l = true) (hn : 0 < n)
+    (h1 : expandAbs l i n = false) (h2 : expandAbs (expand l i n) i (-n) = false)
+    (hnd : (den l).Nodup) :
+    outerMarks (expand (expand l i n) i (-n)) = outerMarks l :=
+  embed_then_delete_marks_partial l i n hw hn
+    (expandInsMarkAbs_of_nodup l i n hw (by omega) h1 hnd)
+    (expandDelMarkAbs_of_nodup (expand l i n) i n (expand_ins l i n hw (by omega)).2 hn h2
+      (expand_ins_nodup l i n hw (by omega) h1 hnd))
+
+/-- non-vacuity: a complement-strand join with both outer markers whose first part is split by
+the insertion -/
+example : wf (compl (joined [ranged 2 5 true false, point 7, ranged 9 12 false true])) = true ∧
+    shiftMarkAbs (compl (joined [ranged 2 5 true false, point 7, ranged 9 12 false true])) 4 3 = false ∧
+    expandMarkAbs (shift (compl (joined [ranged 2 5 true false, point 7, ranged 9 12 false true])) 4 3) 4 (-3) = false ∧
+    expandMarkAbs (compl (joined [ranged 2 5 true false, point 7, ranged 9 12 false true])) 4 3 = false ∧
+    expandMarkAbs (expand (compl (joined [ranged 2 5 true false, point 7, ranged 9 12 false true])) 4 3) 4 (-3) = false ∧
+    outerMarks (compl (joined [ranged 2 5 true false, point 7, ranged 9 12 false true])) = (true, true) ∧
+    shiftAbs (compl (joined [ranged 2 5 true false, point 7, ranged 9 12 false true])) 4 3 = false ∧
+    expandAbs (shift (compl (joined [ranged 2 5 true false, point 7, ranged 9 12 false true])) 4 3) 4 (-3) = false ∧
+    expandAbs (compl (joined [ranged 2 5 true false, point 7, ranged 9 12 false true])) 4 3 = false ∧
+    expandAbs (expand (compl (joined [ranged 2 5 true false, point 7, ranged 9 12 false true])) 4 3) 4 (-3) = false ∧
+    (den (compl (joined [ranged 2 5 true false, point 7, ranged 9 12 false true]))).Nodup := by
+  decide
+
 /-! ### record level: the two-step programs on whole records -/
 
 /-- **insert;delete, record level**: after deleting the `|guest|` residues just inserted at `i`,
@@ -289,5 +363,33 @@ theorem ranged_feature_round_trip (host guest : Gts.Seq) (i : Int) (hg : 0 < gue
       simp [ranged_embed_then_delete s e p5 p3 i guest.len hse hg]
     rw [this]
     exact List.mem_map_of_mem hm
+
+/-- **insert;delete / embed;delete, record level (markers)**: every host feature comes back
+with unchanged key and qualifiers and the same outer partial markers as originally. -/
+theorem insert_delete_feature_marks_partial (host guest : Gts.Seq) (i : Int) (hg : 0 < guest.len)
+    (f : Feature) (hf : f ∈ host.feats) (hw : wf f.loc = true)
+    (g1 : shiftMarkAbs f.loc i guest.len = false)
+    (g2 : expandMarkAbs (shift f.loc i guest.len) i (-guest.len) = false) :
+    ∃ f' ∈ ((host.insert i guest).delete i guest.len).feats, f'.key = f.key ∧ f'.props = f.props ∧
+      outerMarks f'.loc = outerMarks f.loc := by
+  have hm : ({ f with loc := f.loc.shift i guest.len } : Feature) ∈ (host.insert i guest).feats :=
+    mem_of_perm_map_append_left (C02.insert_table_perm host guest i) hf
+  refine ⟨{ f with loc := (f.loc.shift i guest.len).expand i (-guest.len) }, ?_, rfl, rfl,
+    shift_then_delete_marks_partial f.loc i guest.len hw hg g1 g2⟩
+  show _ ∈ ((host.insert i guest).feats.map fun f => { f with loc := f.loc.expand i (-guest.len) })
+  exact List.mem_map_of_mem hm
+
+theorem embed_delete_feature_marks_partial (host guest : Gts.Seq) (i : Int) (hg : 0 < guest.len)
+    (f : Feature) (hf : f ∈ host.feats) (hw : wf f.loc = true)
+    (g1 : expandMarkAbs f.loc i guest.len = false)
+    (g2 : expandMarkAbs (expand f.loc i guest.len) i (-guest.len) = false) :
+    ∃ f' ∈ ((host.embed i guest).delete i guest.len).feats, f'.key = f.key ∧ f'.props = f.props ∧
+      outerMarks f'.loc = outerMarks f.loc := by
+  have hm : ({ f with loc := f.loc.expand i guest.len } : Feature) ∈ (host.embed i guest).feats :=
+    mem_of_perm_map_append_left (C02.embed_table_perm host guest i) hf
+  refine ⟨{ f with loc := (f.loc.expand i guest.len).expand i (-guest.len) }, ?_, rfl, rfl,
+    embed_then_delete_marks_partial f.loc i guest.len hw hg g1 g2⟩
+  show _ ∈ ((host.embed i guest).feats.map fun f => { f with loc := f.loc.expand i (-guest.len) })
+  exact List.mem_map_of_mem hm
 
 end Gts.C10
